@@ -101,15 +101,15 @@ aFull == aValid \o aErr
 aCore == <<pX, pS, pSa, pSb, pL0, pL01, pLs, pL0a, pL1b, pLsa, pIM0, pIM1a, pIMsb, pSMa, pSMba, pSMsa, pWva, pWli0,
            pLL01, pLLs0, eNope, eBM1>>
 aSmall == <<pSa, pSb, pL0, pL01a, pLs, pLsa, pL1b, pIM1a, pIMs, pSMba, pWli0, pLL01>>
+aTiny == <<pS, pSa, pL0, pL01a, pLs, pLsa, pIM1a, pIMs, pSMba>>
 
 \* root N (negative field ids)
 nX == <<FN("x")>>
 nNeg == <<FN("neg")>>
-nNegId == <<FI(-1)>>
 nSa == <<FN("s"), FN("a")>>
 nNSa == <<FN("ns"), FN("a")>>
-nNS == <<FI(-2)>>
-aNeg == <<nX, nNeg, nNegId, nSa, nNSa, nNS>>
+nNS == <<FN("ns")>>
+aNeg == <<nX, nNeg, nSa, nNSa, nNS>>
 
 \* ---- queries ---------------------------------------------------------------
 cIdx == {0, 1, 3}
@@ -130,7 +130,9 @@ Positions(ty) ==
     [] OTHER -> {<<St("i", 0, "")>> \o p : p \in Positions(ty.e)}
 cWalks == SetToSeq(Positions(RootTy))
 
-\* PathInMask queries: the alphabet's own paths (valid and not) and single-step variations
+\* PathInMask queries: the alphabet's own paths and single-step variations, and query paths with an unknown field of
+\* the root.  (Other ill-formed / ill-typed query paths are left out: the statement says what NewFieldMask does with
+\* them, not what a query does; the library answers "in mask" for anything below a complete path.)
 qL3 == <<FN("l"), IX(<<EI(3)>>)>>
 qL0b == <<FN("l"), IX(<<EI(0)>>), FN("b")>>
 qIM1 == <<FN("im"), KY(<<EI(1)>>)>>
@@ -146,7 +148,7 @@ qLL00 == <<FN("ll"), IX(<<EI(0)>>), IX(<<EI(0)>>)>>
 cPimsR == <<pX, pXid, pS, pSa, pSb, pL0, pL1, pLs, pL0a, pL1b, pLsa, pSS1, pSSs, pIM0, pIM1a, pIMs, pIMsb, pSMa, pSMsa,
             pEM1, pBMsa, pWva, pWli0, pWmii1, pY, pLL01, pLL, pRoot, pAny, pSany,
             qL3, qL0b, qIM1, qIM1b, qIMsa, qSMz, qSMaa, qW, qWv, qWvb, qLL0, qLL00,
-            eNope, eId9, eXa, eX0, eLk, eIMs, eSM1, eLempty, eLstr>>
+            eNope, eId9>>
 cPimsN == <<nX, nNeg, nSa, nNSa>>
 
 ----------------------------------------------------------------------------
